@@ -1,5 +1,7 @@
 import InovesaModel.Model.Scalar
 import InovesaModel.Model.KickMap
+import InovesaModel.Model.Ruler
+import InovesaModel.Model.FokkerPlanck
 open Inovesa
 namespace Driver
 
@@ -74,10 +76,34 @@ def runCoeff (c : Case) : List String :=
   let ws := c.extra.toList.flatMap fun f => Gen.coeff it f
   ["case " ++ c.id, hexLine "coeff" ws]
 
+/-- fp <id> <n> <nb> <dt> <fptype> <fptrack> ; extra = e1 qmin qmax pmin pmax -/
+def runFP (c : Case) : List String :=
+  let n := natArg c 2
+  let nb := natArg c 3
+  let dt := natArg c 4
+  let fpt := natArg c 5
+  let e1 := c.extra.getD 0 f32zero
+  let ry : Ruler Float32 := { steps := n, min := c.extra.getD 3 f32zero, max := c.extra.getD 4 f32zero }
+  let delta := ry.delta
+  let yc := ry.zerobin
+  let p : Nat → Float32 := fun j => ry.at j
+  let jc : Nat := match f32modf yc with
+    | some (i, _) => i
+    | none => 0
+  let ltyc : Nat → Bool := fun j => decide (Float32.ofNat j < yc)
+  let rowAt : Nat → List (Hi Float32) := fun j => fpRowAt dt fpt n jc ltyc e1 delta p j
+  let rulerLine := hexLine "ruler" ([delta, yc] ++ (List.range n).map p)
+  let tabLine := (List.range n).foldl (fun s j =>
+      (rowAt j).foldl (fun s h => s ++ " " ++ toString h.1 ++ " " ++ f32hex h.2) s) "tab"
+  let data : Nat → Float32 := fun i => c.data.getD i f32zero
+  let out := fpApply n nb rowAt data
+  ["case " ++ c.id, rulerLine, tabLine, hexLine "out" out]
+
 def dispatch (c : Case) : List String :=
   match c.kind with
   | "kick" => runKick c
   | "coeff" => runCoeff c
+  | "fp" => runFP c
   | k => ["case " ++ c.id, "error unknown-kind " ++ k]
 
 end Driver
